@@ -10,6 +10,8 @@
                = THREEFISH             key = x<key>,x<tweak>   (`Threefish(key,tweak)`), blockbytes = 32 | 64 | 128: Model.Mode over
                                        Model.Threefish (model column), Spec.Mode over Threefish-256/512/1024 of Skein 1.3 (spec column)
       verb er = `enc(M);dec(enc(M))` (one encryption, one decryption with an equally configured object)
+      verb dd = `dec(C);dec(C');dec(C)` on ONE object, C' = C with its whole blocks (behind the IV block for CBC / CTS_CBC) reversed
+      verb ee = `enc(M);enc(M');enc(M);dec(enc(M))` on ONE object, M' = M with its whole blocks reversed
       verb xd = decryption, with the padding scheme, of the nopadding-encryption of <msg> (= unpad(<msg>): good and damaged paddings)
     ctrseq <cipher> <blockbytes> <key> <counter or -> <step> <step> …
         ONE object `CTR(cipher[,counter])` through a history of public calls (Model.Mode.CTR.Obj.run); the outputs of the steps joined
@@ -65,6 +67,15 @@ def ops? (mode : String) (c : BlockCipher) (iv : Option (List Nat)) (s : Scheme)
   | "CTR", iv => if s = .no then some (Mode.CTR.enc c iv, Mode.CTR.dec c iv) else none
   | _, _ => none
 
+/-- X with its whole blocks in reverse order (keep: the first block stays in front; a partial tail stays behind) -/
+def revBlocks (n : Nat) (keep : Bool) (X : List Nat) : List Nat :=
+  let head := if keep then X.take n else []
+  let body := X.drop head.length
+  let q := body.length / n
+  head ++ ((List.range q).reverse.map fun i => (body.drop (i * n)).take n).flatten ++ body.drop (q * n)
+
+def keepsIv (mode : String) : Bool := mode == "CBC" || mode == "CTS_CBC"
+
 def modelRun (mode : String) (c : BlockCipher) (iv : Option (List Nat)) (s : Scheme) (verb : String) (m : List Nat) :
     Option String :=
   match ops? mode c iv s with
@@ -78,6 +89,10 @@ def modelRun (mode : String) (c : BlockCipher) (iv : Option (List Nat)) (s : Sch
       | none => none
     | "enc" | "enc2" => some (fmtR (e m))
     | "dec" => some (fmtR (d m))
+    -- one object, several calls: the mode objects keep nothing a later call reads (the paddings of this stream do not read
+    -- the padding state in `remove`), so each call is the stateless function
+    | "dd" => some (";".intercalate [fmtR (d m), fmtR (d (revBlocks c.len (keepsIv mode) m)), fmtR (d m)])
+    | "ee" => some (";".intercalate [fmtR (e m), fmtR (e (revBlocks c.len false m)), fmtR (e m), fmtR (e m >>= d)])
     | "rt" => some (fmtR (e m >>= d))
     | "er" =>
       match e m with
@@ -277,10 +292,17 @@ def handle : Handler := fun op args =>
       let m ← parseBytes? msg
       let (c, k) ← instance? cid n keys
       -- the two columns are independent computations: evaluate the spec column on a second thread
-      let sp := Task.spawn fun _ => specRun mode k iv s verb m
+      let joinSpec := fun (l : List String) => if l.any (· == "-") then "-" else ";".intercalate l
+      let sp := Task.spawn fun _ =>
+        match verb with
+        | "dd" => joinSpec [specRun mode k iv s "dec" m, specRun mode k iv s "dec" (revBlocks n (keepsIv mode) m), specRun mode k iv s "dec" m]
+        | "ee" => joinSpec [specRun mode k iv s "enc" m, specRun mode k iv s "enc" (revBlocks n false m), specRun mode k iv s "enc" m,
+                            specRun mode k iv s "rt" m]
+        | _ => specRun mode k iv s verb m
       let mr ← match c with
         | .ok c => modelRun mode c iv s verb m
-        | .error _ => (modelRun mode (Toy.rot n []) iv s verb []).map fun _ => "ERR"    -- the cipher constructor raised
+        | .error _ => (modelRun mode (Toy.rot n []) iv s verb []).map fun _ =>     -- the cipher constructor raised
+            if verb == "dd" then "ERR;ERR;ERR" else if verb == "ee" then "ERR;ERR;ERR;ERR" else "ERR"
       pure (mr, sp.get)
   | "ctrseq", cid :: n :: key :: ctor :: steps => do
       let n ← parseNat? n
